@@ -95,6 +95,7 @@ structure Fault where
   idx : Nat
   part : Bytes
   after : List (Bytes × Bool)
+  cleanup : Bool          -- a second fault in the clean-up: the `os.remove` of the `finally` fails as well (not FileNotFoundError)
   deriving DecidableEq, Repr
 
 def okEv (o : FsOp P) : Ev P := ⟨o, false⟩
@@ -113,38 +114,42 @@ def tick : Option Nat → Option Nat
   | some (j + 1) => some j
   | _ => none
 
+/-- the `os.remove(tmpfile)` of the `finally` after something else has failed; `cl = true`: it fails, too (and its error
+is the one that leaves the call) -/
+def rmEv (tmp : P) (cl : Bool) : Ev P := ⟨.remove tmp, cl⟩
+
 /-- after the last write: `__exit__` closes, `os.rename`, then `finally: os.remove`.  A failing close or
 rename skips to the `finally`; a failing remove (other than FileNotFoundError) propagates. -/
-def tailRun (tgt tmp : P) : Option Nat → Run P
-  | some 0 => ⟨[badEv (.close tmp), okEv (.remove tmp)], false, true⟩
-  | some 1 => ⟨[okEv (.close tmp), badEv (.rename tmp tgt), okEv (.remove tmp)], false, true⟩
+def tailRun (tgt tmp : P) (cl : Bool) : Option Nat → Run P
+  | some 0 => ⟨[badEv (.close tmp), rmEv tmp cl], false, true⟩
+  | some 1 => ⟨[okEv (.close tmp), badEv (.rename tmp tgt), rmEv tmp cl], false, true⟩
   | some 2 => ⟨[okEv (.close tmp), okEv (.rename tmp tgt), badEv (.remove tmp)], true, true⟩
   | _ => ⟨[okEv (.close tmp), okEv (.rename tmp tgt), okEv (.remove tmp)], true, false⟩
 
 /-- the events of a write that failed and what follows it: the `with` block is left (the file object may write
 again what it still holds, then closes), then the `finally` (remove) -/
-def failedWrite (tmp : P) (part : Bytes) (after : List (Bytes × Bool)) : List (Ev P) :=
-  badEv (.write tmp part) :: (after.map (fun c => ⟨.write tmp c.1, c.2⟩) ++ [okEv (.close tmp), okEv (.remove tmp)])
+def failedWrite (tmp : P) (part : Bytes) (after : List (Bytes × Bool)) (cl : Bool) : List (Ev P) :=
+  badEv (.write tmp part) :: (after.map (fun c => ⟨.write tmp c.1, c.2⟩) ++ [okEv (.close tmp), rmEv tmp cl])
 
 /-- the writes by which the text of `json.dump` and the final newline reach the file descriptor (inside the `with`
 block or when `__exit__` flushes: both come before the `close` of the descriptor); a failing write leaves the
 `with` block -/
-def writesRun (tgt tmp : P) (part : Bytes) (after : List (Bytes × Bool)) : List Bytes → Option Nat → Run P
-  | [], k => tailRun tgt tmp k
+def writesRun (tgt tmp : P) (part : Bytes) (after : List (Bytes × Bool)) (cl : Bool) : List Bytes → Option Nat → Run P
+  | [], k => tailRun tgt tmp cl k
   | c :: cs, k =>
     match k with
-    | some 0 => ⟨failedWrite tmp part after, false, true⟩
-    | _ => (writesRun tgt tmp part after cs (tick k)).cons (okEv (.write tmp c))
+    | some 0 => ⟨failedWrite tmp part after cl, false, true⟩
+    | _ => (writesRun tgt tmp part after cl cs (tick k)).cons (okEv (.write tmp c))
 
 /-- one call of the writing part of `__save_params` under an optional fault; a failing `open` goes
 straight to the `finally` -/
 def saveRun (tgt tmp : P) (chunks : List Bytes) (fault : Option Fault) : Run P :=
   match fault with
-  | none => (writesRun tgt tmp [] [] chunks none).cons (okEv (.openTrunc tmp))
+  | none => (writesRun tgt tmp [] [] false chunks none).cons (okEv (.openTrunc tmp))
   | some f =>
     match f.idx with
-    | 0 => ⟨[badEv (.openTrunc tmp), okEv (.remove tmp)], false, true⟩
-    | j + 1 => (writesRun tgt tmp f.part f.after chunks (some j)).cons (okEv (.openTrunc tmp))
+    | 0 => ⟨[badEv (.openTrunc tmp), rmEv tmp f.cleanup], false, true⟩
+    | j + 1 => (writesRun tgt tmp f.part f.after f.cleanup chunks (some j)).cons (okEv (.openTrunc tmp))
 
 end fs
 
